@@ -350,7 +350,7 @@ class Check(common.Check):
         return ('1-4 routines (generator or plain function, with/without inval) whose bodies are scripts of 0-9 '
                 'actions over yield/raise (Exception and bare BaseException: KeyboardInterrupt, SystemExit, GeneratorExit, custom)/raise StopStream/YieldAndReset/AlwaysYield/nested next (catch, propagate, '
                 'embed)/play,pause,resume,stop,reset on any routine incl. itself/Condition wait,signal,unhang,test/'
-                'FlowVar get,set/log; 30% of generator bodies inside try/finally or except GeneratorExit whose clean-up section yields; 3% EventStreamPlayers with clean-up entries stopped/paused/reset from inside themselves; 0-2 conditions, 0-1 flow variables; histories of 1-40 external ops '
+                'FlowVar get,set/log; 25% of inval bodies with *args / wrapper(*args, **kwargs) signatures; 30% of cases with conditions use bound-method/partial/callable-object/lambda tests; 30% of generator bodies inside try/finally or except GeneratorExit whose clean-up section yields; 3% EventStreamPlayers with clean-up entries stopped/paused/reset from inside themselves; 0-2 conditions, 0-1 flow variables; histories of 1-40 external ops '
                 '(next, tick, play/pause/resume/stop/reset, signal, unhang, test, FlowVar set); thorough adds all '
                 'histories of length <=4 over 3 fixed two-routine programs. Non-trivial: at least one body ran, at '
                 'least one nested next or in-body operation happened and at least two different kinds of external '
@@ -498,12 +498,20 @@ class Check(common.Check):
             clock = rng.choice(['tempo', 'tempo', 'app', 'sys'])
             ops = [['rop', r, 'play'], ['tick']] + [['tick']] * rng.randint(0, 1) + [['rop', r, 'reset'], ['tick'],
                                                                                       ['tick']] + ops[:rng.randint(0, 8)]
+        case_extra = {}
+        if nc and rng.random() < 0.3:
+            # the condition tests are callables that are not plain functions (or a lambda, for symmetry)
+            case_extra['testkind'] = rng.choice(['method', 'partial', 'object', 'lambda'])
+        for r_ in rts:
+            # open signatures: `def body(*args)` / a decorator's `wrapper(*args, **kwargs)` still receive inval
+            if r_['inval'] and rng.random() < 0.25:
+                r_['sig'] = rng.choice(['var', 'wrap'])
         closes = any(a[0] == 'raiseb' and a[1] == 'G' for r_ in rts for a in r_['script'])
         for r_ in rts if not closes else []:
             # the body's clean-up section yields when the generator is closed (try/finally or except GeneratorExit)
             if r_['gen'] and rng.random() < 0.3:
                 r_['guard'] = rng.choice(['fin', 'exc'])
-        return {'rts': rts, 'nc': nc, 'nf': nf, 'ops': ops, 'clock': clock}
+        return {'rts': rts, 'nc': nc, 'nf': nf, 'ops': ops, 'clock': clock, **case_extra}
 
     EXH_PROGRAMS = [
         # waiter + controller; AlwaysYield + reset; nested propagate
